@@ -637,7 +637,13 @@ func (r *runner) check(i int, op Op, ms modelSnap, opEnd time.Time) {
 					r.fail("judge", "c15.upstream-left-hanging", what(fmt.Sprintf("storm request %d was cut on the client side but its upstream exchange is still open after %v", rid, bound)), nil, nil)
 				}
 			}
-			r.st.ops["storm-end:"+strings.SplitN(realPhase(s), "(", 2)[0]]++
+			if i == len(r.cs.Ops)-1 {
+				k := strings.SplitN(realPhase(s), "(", 2)[0]
+				if k == "ended" && !s.finishAsked {
+					k = "cut"
+				}
+				r.st.ops["storm-end:"+k]++
+			}
 			continue
 		}
 		if s.picked == nil {
